@@ -175,6 +175,7 @@ type Ctx struct {
 	mu             sync.Mutex
 	noDef          bool
 	preambleCache  string
+	preambleMu     sync.Mutex
 	allocs         []AllocRec
 	usedSpecs      map[string]bool
 }
